@@ -6,7 +6,8 @@
 
    Domain of the text-level functions (outside it they return None =
    "not modelled", never a normal-looking result; the generator stays inside):
-   no '%' (unquote is then the identity), no ';' '+' in a query, no "k=" pair
+   '%' only in path, query and fragment and only escapes of ASCII bytes
+   (url_of_text_pct; without '%' unquote is the identity), no ';' '+' in a query, no "k=" pair
    with an empty value, no '[' ']' in an authority (IPv6), ASCII scheme/host/
    userinfo, host made of non-empty labels over [A-Za-z0-9-] not starting with
    "xn--", a password only together with a user name, port = ASCII digits.
@@ -255,8 +256,80 @@ Definition host_ok (h : str) : bool := is_nil h || forallb label_ok (split DOT h
 Definition scheme_ok (s : str) : bool :=
   forallb (fun c => is_alpha c || is_digit c || (c =? 43) || (c =? 45) || (c =? DOT)) s.
 
+(* ---- percent escapes (wave 5): texts with '%' in path, query or fragment ----------
+   unquote(): each %XX with two hex digits becomes the byte XX, anything else stays; the bytes
+   are then decoded as UTF-8, which is modelled for ASCII bytes only (a byte >= 0x80 = None) *)
+Definition hexval (c : N) : option N :=
+  if is_digit c then Some (c - 48)
+  else if (65 <=? c) && (c <=? 70) then Some (c - 55)
+  else if (97 <=? c) && (c <=? 102) then Some (c - 87)
+  else None.
+
+Fixpoint unq (s : str) : option str :=
+  match s with
+  | [] => Some []
+  | c :: r =>
+      if c =? PCT then
+        match r with
+        | a :: b :: r' =>
+            match hexval a, hexval b with
+            | Some x, Some y =>
+                let v := 16 * x + y in
+                if 127 <? v then None else option_map (cons v) (unq r')
+            | _, _ => option_map (cons PCT) (unq r)
+            end
+        | _ => option_map (cons PCT) (unq r)
+        end
+      else option_map (cons c) (unq r)
+  end.
+
+Fixpoint all_some {A} (l : list (option A)) : option (list A) :=
+  match l with
+  | [] => Some []
+  | Some x :: r => option_map (cons x) (all_some r)
+  | None :: _ => None
+  end.
+
+Definition parse_qsl_pct (qs : str) : option (list (str * option str)) :=
+  if existsb (fun c => (c =? 59) || (c =? 43)) qs then None else
+  let pairs := filter nonempty (split AMP qs) in
+  let kvs := map (fun pair => partition_at EQS pair) pairs in
+  if existsb (fun kv : str * bool * str => snd (fst kv) && is_nil (snd kv)) kvs then None else
+  all_some (map (fun kv : str * bool * str =>
+                   match unq (fst (fst kv)), unq (snd kv) with
+                   | Some k, Some v => Some (k, if snd (fst kv) then Some v else None)
+                   | _, _ => None
+                   end) kvs).
+
+(* URL(text) for a text that contains '%' (none in scheme or authority) *)
+Definition url_of_text_pct (t : str) : option url :=
+  if existsb (fun c => (c =? 10) || (c =? 13)) t then None else
+  let g := parse t in
+  let sch := or_empty (scheme g) in
+  let au := or_empty (authority g) in
+  if negb (scheme_ok sch) || mem PCT au || mem 91 au || mem 93 au || existsb (fun c => 127 <? c) au then None else
+  let '(userinfo, sep, hostinfo) := rpartition_at AT au in
+  let '(user, _, pw) := if sep then partition_at COLON userinfo else ([], false, []) in
+  let '(host, hsep, port_str) := partition_at COLON hostinfo in
+  if negb (host_ok host) || (is_nil user && nonempty pw) then None else
+  match (if hsep then
+           (if is_nil port_str then Some None
+            else match uint_of_digits port_str with
+                 | Some d => Some (Some (N.of_uint d))
+                 | None => None
+                 end)
+         else Some None),
+        parse_qsl_pct (or_empty (query g)),
+        all_some (map unq (split SL (path g))),          (* unquote(p) for p in path.split('/') *)
+        unq (or_empty (fragment g)) with
+  | Some port, Some q, Some parts, Some frag =>
+      Some (mkUrl sch (match authority g with Some _ => true | None => false end)
+                  user pw host port parts q frag)
+  | _, _, _, _ => None
+  end.
+
 Definition url_of_text (t : str) : option url :=
-  if existsb (fun c => (c =? PCT) || (c =? 10) || (c =? 13)) t then None else
+  if existsb (fun c => (c =? PCT) || (c =? 10) || (c =? 13)) t then url_of_text_pct t else
   let g := parse t in                                    (* _URL_RE.match(t).groupdict() *)
   let sch := or_empty (scheme g) in
   let au := or_empty (authority g) in
